@@ -58,6 +58,9 @@ def split_call(t):
     return dst, head.strip(), argtext, nxt
 
 
+_RESOLVE_CACHE = {}
+
+
 class Path:
     """one execution path: path condition + recorded events + stores into symbolic objects"""
     __slots__ = ("pc", "events", "notes", "stores")
@@ -120,6 +123,16 @@ def norm_type(ty):
 
 def last_seg(path):
     return strip_generics(path).split("::")[-1]
+
+
+class Inst:
+    """a generic function instantiated with concrete type arguments"""
+
+    def __init__(self, fn, tyargs):
+        self.fn, self.tyargs = fn, tyargs
+
+    def __getattr__(self, k):
+        return getattr(self.fn, k)
 
 
 class SymV:
@@ -380,9 +393,11 @@ class Exec:
             return IntV(ord(bytes(text[1:-1], "utf-8").decode("unicode_escape")), 32, False)
         if text.startswith("ZeroSized") or text == "()":
             return OpaqueV(text)
+        if text.startswith("log::") or text.startswith("log::__private_api"):
+            return OpaqueV(text[:40])
         if text.startswith('b"') or text in ("RangeFull", "core::ops::RangeFull") or text.startswith("{") or text.startswith("&"):
             return OpaqueV(text[:30])   # byte-string format templates, unit structs, promoted references: never inspected
-        m = re.match(r"^(?:f64::|core::f64::)(EPSILON|MAX|MIN|INFINITY|NAN)$", text)
+        m = re.match(r"^(?:f64::|core::f64::|std::f64::)(?:<impl f64>::|consts::)?(EPSILON|MAX|MIN|INFINITY|NAN)$", text)
         if m:
             import sys
             val = {"EPSILON": sys.float_info.epsilon, "MAX": sys.float_info.max, "MIN": -sys.float_info.max,
@@ -395,6 +410,9 @@ class Exec:
             return IntV(v.hi() if m.group(2) == "MAX" else v.lo(), bits, signed)
         # named constant of the crate (e.g. formatter::YEAR): evaluate its MIR body
         name = strip_generics(text)
+        pm = re.search(r"(promoted\[\d+\])$", text)
+        if pm and (fn.name + "::" + pm.group(1)) in self.consts:
+            name = fn.name + "::" + pm.group(1)
         if name not in self.consts and "promoted[" in name:
             # promoted constants are printed with a shorter module path at their definition
             cands = [n for n in self.consts if name.endswith("::" + n) or name == n]
@@ -439,6 +457,23 @@ class Exec:
             if isinstance(base, SymV):
                 return base.payload(p[2])
             raise Unsupported("downcast of %r" % (base,))
+        if k in ("index", "constindex"):
+            base = self.read_place(p[1], env, fn)
+            while isinstance(base, RefV):
+                base = base.v
+            if k == "index":
+                iv = env[p[2]]
+                i = z3.simplify(iv.t)
+                if not z3.is_int_value(i):
+                    raise Unsupported("symbolic index")
+                i = i.as_long()
+            else:
+                i = p[2]
+            if isinstance(base, VecV):
+                return base.items[i]
+            if isinstance(base, TupleV):
+                return base.f[i]
+            raise Unsupported("index into %r" % (base,))
         raise Unsupported("place kind %s" % k)
 
     def project(self, base, idx, ty):
@@ -448,6 +483,10 @@ class Exec:
             return base.f[idx]
         if isinstance(base, ItemV) and isinstance(base.f, SymV):
             return base.f.field(idx, ty)
+        if isinstance(base, StructV):
+            cp = getattr(self, "cur_path", None)
+            if cp is not None and (base.path, idx) in cp.stores:
+                return cp.stores[(base.path, idx)]
         if isinstance(base, (StructV, ItemV)):
             if idx not in base.f:
                 raise Unsupported("field %d of %r" % (idx, base))
@@ -519,6 +558,9 @@ class Exec:
         s = s.strip()
         if s.startswith("no_retag "):
             s = s[len("no_retag "):]
+        m = re.match(r"^(.*) as (.+) \(PointerCoercion\(ReifyFnPointer.*\)\)$", s, re.S)
+        if m and not s.startswith(("copy ", "move ", "const ")):
+            return FnPtrV(m.group(1).strip())
         if s.startswith(("copy ", "move ", "const ")):
             # may be a cast: "copy _1 as T (Kind)"
             m = re.match(r"^((?:copy|move) .+?|const .+?) as (.+) \((\w+(?:\([^)]*\))?)\)$", s)
@@ -528,7 +570,14 @@ class Exec:
         m = re.match(r"^&(?:raw (?:const|mut) )?(?:mut )?(.*)$", s)
         if m and not s.startswith("&&"):
             pl = parse_place(m.group(1))
-            return RefV(self.read_place(pl, env, fn), pl[1] if pl[0] == "local" else None)
+            loc = None
+            if pl[0] == "field":
+                base = self.read_place(pl[1], env, fn)
+                while isinstance(base, RefV):
+                    base = base.v
+                if isinstance(base, (SymV, StructV)):
+                    loc = (base.path, pl[2])
+            return RefV(self.read_place(pl, env, fn), pl[1] if pl[0] == "local" else None, loc)
         m = re.match(r"^discriminant\((.*)\)$", s)
         if m:
             return self.discriminant(self.read_place(parse_place(m.group(1)), env, fn))
@@ -551,7 +600,7 @@ class Exec:
                 return UNIT
             return TupleV([self.operand(parse_operand(x), env, fn) for x in split_top(inner)])
         if s.startswith("[") and s.endswith("]"):
-            return TupleV([self.operand(parse_operand(x), env, fn) for x in split_top(s[1:-1])])
+            return VecV([self.operand(parse_operand(x), env, fn) for x in split_top(s[1:-1])])
         return self.aggregate(s, env, fn)
 
     def aggregate(self, s, env, fn):
@@ -662,7 +711,7 @@ class Exec:
     # ------------------------------------------------------------ execution
     def run(self, fn, args, path, depth=0):
         """generator of Outcomes for calling fn with args on path"""
-        if depth > 40:
+        if depth > 200:
             raise Unsupported("call depth")
         env = {}
         for (l, _), a in zip(fn.args, args):
@@ -692,7 +741,7 @@ class Exec:
         pl = parse_place(m.group(1))
         if pl[0] == "field" and pl[1][0] == "deref":
             base = self.read_place(pl[1], env, fn)
-            if isinstance(base, SymV):
+            if isinstance(base, (SymV, StructV)):
                 return path.store(base.path, pl[2], pl[3], val)
             raise Unsupported("store through a reference to %r in %s" % (base, fn.name))
         self.write_place(pl, val, env, fn)
@@ -738,6 +787,12 @@ class Exec:
         m = split_call(t)
         if m:
             dst, callee, argtext, nxt = m
+            im = re.match(r"^(?:move|copy) (_\d+)$", callee)
+            if im:
+                fp = env.get(im.group(1))
+                if not isinstance(fp, FnPtrV):
+                    raise Unsupported("indirect call through %r in %s" % (fp, fn.name))
+                callee = fp.name
             args = [self.operand(parse_operand(x), env, fn) for x in split_top(argtext)] if argtext.strip() else []
             for out in self.call(callee, args, path, depth, fn):
                 if out.kind == "panic":
@@ -783,6 +838,12 @@ class Exec:
     # ------------------------------------------------------------ calls
     def call(self, callee, args, path, depth, caller):
         name = callee.strip()
+        m = re.match(r"^(?:move|copy) (_\d+)$", name)
+        if m:
+            raise Unsupported("indirect call through %s must be resolved by the terminator" % name)
+        tyargs = getattr(caller, "tyargs", None)
+        if tyargs and re.match(r"^<T as ", name):
+            name = "<" + tyargs[0] + name[2:]
         for rx, h in self.handlers:
             if rx.search(name):
                 res = h(self, name, args, path, depth, caller)
@@ -790,6 +851,21 @@ class Exec:
                     continue
                 yield from res
                 return
+        ck = (id(self.fns), name)
+        if ck in _RESOLVE_CACHE:
+            target = _RESOLVE_CACHE[ck]
+        else:
+            target = self._resolve(name)
+            _RESOLVE_CACHE[ck] = target
+        if target is not None:
+            gm = re.search(r"::<(.*)>$", name)
+            if gm and not name.startswith("<"):
+                target = Inst(target, [last_seg(a) for a in split_top(gm.group(1))])
+            yield from self.run(target, args, path, depth + 1)
+            return
+        raise Unsupported("call %s (from %s)" % (name, caller.name))
+
+    def _resolve(self, name):
         plain = strip_generics(name)
         target = self.fns.get(name) or self.fns.get(plain)
         if target is None:
@@ -799,9 +875,17 @@ class Exec:
                 target = cands[0]
         if target is None:
             # inherent method `Type::method` -> `module::<impl at file:..>::method` with a matching self type
-            m = re.match(r"^(\w+)::(\w+)$", plain)
+            m = re.match(r"^(?:[\w:]+::)?(\w+)::(\w+)$", plain)
             if m:
                 ty, meth = m.group(1), m.group(2)
+                cands = []
+                self.trait_impl("<X as Y>::z")   # builds the impl index
+                for n, f in self.fns.items():
+                    im = re.search(r"<impl at ([^:>]+):(\d+):\d+: [^>]*>::(\w+)$", n)
+                    if im and im.group(3) == meth and self._impl_index.get((im.group(1), int(im.group(2)))) == (None, ty):
+                        cands.append(f)
+                if len(cands) == 1:
+                    target = cands[0]
                 cands = []
                 for n, f in self.fns.items():
                     if re.search(r"<impl at [^>]*>::%s$" % re.escape(meth), n):
@@ -809,12 +893,45 @@ class Exec:
                             cands.append(f)
                         elif f.ret and norm_type(f.ret).split("<")[0].split("::")[-1] == ty and not f.args:
                             cands.append(f)
-                if len(cands) == 1:
+                if target is None and len(cands) == 1:
                     target = cands[0]
-        if target is not None:
-            yield from self.run(target, args, path, depth + 1)
-            return
-        raise Unsupported("call %s (from %s)" % (name, caller.name))
+        if target is None:
+            target = self.trait_impl(name)
+        return target
+
+    def trait_impl(self, name):
+        """`<Type as Trait>::method` -> the function of `impl Trait for Type` (Self type read from the source line
+        the MIR's `<impl at file:line:..>` points to)"""
+        m = re.match(r"^<([\w:]+) as ([\w:]+)>::(\w+)$", name.replace("::<'_>", "").replace("<'_>", ""))
+        if not m:
+            return None
+        ty, trait, meth = last_seg(m.group(1)), last_seg(m.group(2)), m.group(3)
+        idx = getattr(self, "_impl_index", None)
+        if idx is None:
+            idx = {}
+            import common, os
+            for n in self.fns:
+                im = re.search(r"<impl at ([^:>]+):(\d+):\d+: [^>]*>::(\w+)$", n)
+                if not im:
+                    continue
+                key = (im.group(1), int(im.group(2)))
+                if key not in idx:
+                    try:
+                        line = open(os.path.join(common.REPO, im.group(1)), errors="replace").read().split("\n")[key[1] - 1]
+                    except (OSError, IndexError):
+                        line = ""
+                    hm = re.match(r"\s*impl(?:<[^>]*>)?\s+(?:([\w:]+)(?:<[^>]*>)?\s+for\s+)?([\w:]+)", line)
+                    idx[key] = (last_seg(hm.group(1)) if hm and hm.group(1) else None, last_seg(hm.group(2)) if hm else None)
+            self._impl_index = idx
+        cands = []
+        for n, f in self.fns.items():
+            im = re.search(r"<impl at ([^:>]+):(\d+):\d+: [^>]*>::(\w+)$", n)
+            if im and im.group(3) == meth and idx.get((im.group(1), int(im.group(2)))) == (trait, ty):
+                cands.append(f)
+        return cands[0] if len(cands) == 1 else None
 
     def ret(self, path, value):
         yield Outcome("return", path, value)
+
+    def ret_w(self, path, value, writes):
+        yield Outcome("return", path, value, writes=writes)
